@@ -237,6 +237,9 @@ func checkC01(w *World, r *Report) {
 		r.OK("C01.R2", "Context.Sender", "Context.Sender() returns the stored sender", w.fnPos(a.cSender))
 	}
 	checkBatchLoop(w, r, pr)
+	r.Rule("C01.R5", "an accepted message is processed without further stimulus (the C03 wake-up protocol) and from a ring with sound length accounting (C14.R2/R3): necessary for 'delivered exactly once'", 8)
+	importRules(w, r, checkC03, "C03", "C01.R5", nil)
+	importRules(w, r, checkC14, "C14", "C01.R5", func(o *Obligation) bool { return o.Rule == "C14.R2" || o.Rule == "C14.R3" })
 }
 
 // loopExitEdges: edges on which the worker loop leaves without a batch (stopped / empty pop).
@@ -513,6 +516,9 @@ func checkC09(w *World, r *Report) {
 		return
 	}
 	checkForwardLoop(w, r, es, a, "C09.R4")
+	importRules(w, r, checkC12, "C12", "C09.R4", func(o *Obligation) bool { return o.Rule == "C12.R2" || o.Rule == "C12.R3" })
+	r.Rule("C09.R6", "no path publishes two dead letters for one send", 3)
+	checkSingleDeadLetter(w, r, "C09.R6")
 	if w.mayDo(es, EvCall("BroadcastEvent", a.eBroadcast), 0) {
 		r.Fail("C09.R5", "eventStream.Receive->BroadcastEvent", "forwarding an event can never synchronously publish another event", w.fnPos(es),
 			"call path eventStream.Receive -> Context.Forward -> SendWithSender -> send -> SendLocal[registry miss] -> BroadcastEvent: a subscriber that stopped without unsubscribing turns every event into a dead letter, which is itself an event")
@@ -910,6 +916,7 @@ func checkC11(w *World, r *Report) {
 	w.checkRow(r, row{rule: "C11.R2", fn: a.cRespond, callee: EvCall("Send", a.eSend), name: "Engine.Send", args: []string{"P0.engine", "P0.sender", "P1"},
 		why:    "The reply does not go to the requester.",
 		excuse: func(g *FG) []Edge { n, _ := w.nilEdges(g, "P0.sender"); return n }})
+	checkSenderFresh(w, r, "C11.R2")
 	// R3
 	{
 		g := w.FG(result)
